@@ -815,6 +815,11 @@ class SdcConsumer:
             # find better solution, see issue #320
             self._logger.info('Http server started. Serving EventSink on {}', self._http_server.base_url)  # noqa: PLE1205
         else:
+            shared_base_url = getattr(shared_http_server, 'base_url', None) or ''
+            if self.is_ssl_connection and shared_base_url.startswith('http:'):
+                # NotifyTo / EndTo addresses would be plain http although the provider is connected with TLS
+                msg = 'Shared http server does not use TLS, but the connection to the provider does.'
+                raise ValueError(msg)
             self._http_server = shared_http_server
         # register own epr in http server
         self._http_server.dispatcher.register_instance(self.path_prefix, self._msg_converter)
